@@ -90,7 +90,9 @@ pub fn rand_system(rng: &mut Rng, tiny: bool) -> Polytope {
         6 => {
             // zero rows with positive / zero / negative bias among ordinary ones
             for _ in 0..1 + rng.below(3) {
-                rows.push((vec![0.0; n], *rng.pick(&[1.0, 0.0, 0.0, 2.0, -1.0])));
+                // (negative zero is zero: `0·x <= -0.0` holds everywhere; some coefficients are `-0.0` as well)
+                let z: Vec<f64> = (0..n).map(|_| if rng.chance(1, 4) { -0.0 } else { 0.0 }).collect();
+                rows.push((z, *rng.pick(&[1.0, 0.0, -0.0, 2.0, -1.0, -0.0])));
             }
             for _ in 0..rng.below(4) {
                 rows.push(((0..n).map(|_| rng.lat_int()).collect(), rng.range(0, 5) as f64));
@@ -121,9 +123,11 @@ pub fn rand_system(rng: &mut Rng, tiny: bool) -> Polytope {
             // far from the origin: oblique integer rows around a centre with coordinates of size 1e5..1e6, every row
             // leaves the centre a slack of at least 40 (in units of its 1-norm): non-empty by a wide margin, but a
             // solver vertex is accurate to ~1e-8 in raw residuals only
+            // (one system in four lies beyond 2^31: a region does not have to be near the origin to be non-empty)
+            let very_far = rng.chance(1, 4);
             let c: Vec<f64> = (0..n)
                 .map(|_| {
-                    let v = (100_000 + rng.below(900_000)) as f64;
+                    let v = if very_far { (2_147_483_648usize + rng.below(2_147_483_648)) as f64 } else { (100_000 + rng.below(900_000)) as f64 };
                     if rng.chance(1, 2) { v } else { -v }
                 })
                 .collect();
